@@ -43,7 +43,8 @@ type Case struct {
 	Compress bool    `json:"compress"`
 	Entries  []Entry `json:"entries"`
 	Strays   bool    `json:"strays,omitempty"`
-	High     int64   `json:"high"` // water marks relative to the sizes measured on this file system: see HighSpec/LowSpec
+	ViaLink  bool    `json:"cache_dir_through_symlink,omitempty"` // [cache] dir is spelt through a symlinked parent directory (~/.cache on another disk)
+	High     int64   `json:"high"`                                // water marks relative to the sizes measured on this file system: see HighSpec/LowSpec
 	Low      int64   `json:"low"`
 	HighSpec string  `json:"high_spec,omitempty"` // "total+d" : resolved against the measured total at run time
 	LowSpec  string  `json:"low_spec,omitempty"`  // "sum:<bitmask>+d" : measured size of that subset of entries plus d
@@ -71,7 +72,7 @@ type worker struct {
 	id                  int
 	gen, bin, cacheRoot string
 	tA, tB, tBin        *core.BuildTarget
-	cfg                 [2]*core.Configuration
+	cfg                 [4]*core.Configuration
 	// hook state
 	mode   int
 	cur    int
@@ -129,11 +130,14 @@ func newWorker(i int) *worker {
 	w.tB = core.NewBuildTarget(core.NewBuildLabel(pkg, "tb"))
 	w.tBin = core.NewBuildTarget(core.NewBuildLabel(pkg, "ta"))
 	w.tBin.IsBinary = true
-	for ci := 0; ci < 2; ci++ {
+	for ci := 0; ci < 4; ci++ {
 		cfg := *baseConfig
 		cfg.Cache.Dir = w.cacheRoot
+		if ci >= 2 {
+			cfg.Cache.Dir = filepath.Join(root, "cachelink", pkg) // the same directory, spelt through the symlink root/cachelink -> cache
+		}
 		cfg.Cache.DirClean = false
-		cfg.Cache.DirCompress = ci == 1
+		cfg.Cache.DirCompress = ci%2 == 1
 		w.cfg[ci] = &cfg
 	}
 	must(os.MkdirAll(w.gen, 0o755))
@@ -141,10 +145,13 @@ func newWorker(i int) *worker {
 	return w
 }
 
-func (w *worker) newCache(compress bool) *cache.VerifDirCacheC12 {
+func (w *worker) newCache(compress bool, viaLink ...bool) *cache.VerifDirCacheC12 {
 	ci := 0
 	if compress {
 		ci = 1
+	}
+	if len(viaLink) > 0 && viaLink[0] {
+		ci += 2
 	}
 	must(os.MkdirAll(w.cacheRoot, 0o755))
 	return cache.VerifNewDirCacheC12(w.cfg[ci])
@@ -233,13 +240,13 @@ func (w *worker) place(c Case, i int, final string) {
 // build creates the generated state (or repairs the previous one when only access times, marks and water marks differ)
 // and returns the cache under test (with its marks), the entries and the stray files.
 func (w *worker) build(c Case) (*cache.VerifDirCacheC12, []placed, map[string]string) {
-	key := fmt.Sprint(c.Compress, c.Strays)
+	key := fmt.Sprint(c.Compress, c.Strays, c.ViaLink)
 	for _, e := range c.Entries {
 		key += fmt.Sprint(" ", e.KiB)
 	}
 	var dc *cache.VerifDirCacheC12
 	if key == w.stKey {
-		dc = w.newCache(c.Compress)
+		dc = w.newCache(c.Compress, c.ViaLink)
 		for i := range c.Entries {
 			if look(w.stPS[i].path) == "" {
 				w.place(c, i, w.stPS[i].path)
@@ -248,7 +255,7 @@ func (w *worker) build(c Case) (*cache.VerifDirCacheC12, []placed, map[string]st
 	} else {
 		w.stKey = ""
 		must(os.RemoveAll(w.cacheRoot))
-		dc = w.newCache(c.Compress)
+		dc = w.newCache(c.Compress, c.ViaLink)
 		ps := make([]placed, len(c.Entries))
 		for i := range c.Entries {
 			final, _ := cache.VerifPathC14(dc, w.targetOf(i), keys[i])
@@ -600,6 +607,8 @@ func main() {
 	if v := os.Getenv("C14_WORKERS"); v != "" {
 		fmt.Sscan(v, &nw)
 	}
+	must(os.MkdirAll(filepath.Join(root, "cache"), 0o755))
+	must(os.Symlink("cache", filepath.Join(root, "cachelink")))
 	for i := 0; i < nw; i++ {
 		workers = append(workers, newWorker(i))
 	}
@@ -716,6 +725,14 @@ func main() {
 								continue
 							}
 							out = append(out, Case{Mode: "state", Compress: compress, Entries: es, Strays: strays, HighSpec: hs, LowSpec: fmt.Sprintf("sum:%d+%d", mask, d)})
+							marked := false
+							for _, e := range es {
+								marked = marked || e.Mark != ""
+							}
+							if marked && (!r.Quick() || (mask == 0 && d == 0)) {
+								// the same with the cache directory spelt through a symlinked parent (protection is by path)
+								out = append(out, Case{Mode: "state", Compress: compress, Entries: es, Strays: strays, ViaLink: true, HighSpec: hs, LowSpec: fmt.Sprintf("sum:%d+%d", mask, d)})
+							}
 						}
 					}
 				}
